@@ -138,6 +138,7 @@ func (s *sched) hasArrived(key string) bool {
 type prog struct {
 	World string            `json:"world"` // "N", "R" (world read lock + write locks), "W"
 	Ens   bool              `json:"ens"`   // Prepare calls WorldVirtualState.Ensure()
+	Twice bool              `json:"twice"` // every write lock is requested as a read lock first and then as a write lock
 	Lock  map[string]string `json:"lock"`
 	Ops   [][]string        `json:"ops"`
 	Fate  string            `json:"fate"`
@@ -153,11 +154,13 @@ type blockRun struct {
 	s        *sched
 	progs    []prog // index 0 = transaction 1
 	accounts map[string]module.Address
+	init     map[string]int // values before the block (spec: init); non-zero ones are written by a set-up block
 	pltFail  bool // inject non-retryable failures through Platform.OnTransactionEnd instead of Execute
 	rerun    bool // use CriticalRerunError instead of ExecutionFailError for retryable failures
 
 	mu       sync.Mutex
 	attempts []int
+	handlers []int // GetHandler calls per transaction
 	failNow  map[int]bool // transaction index (0-based) whose OnTransactionEnd has to fail
 	reads    []readRec
 	events   []map[string]interface{} // free-running recorder (per-thread order is what matters)
@@ -191,7 +194,9 @@ type peTx struct {
 	TS   int64 `json:"timestamp"`
 	Salt int64 `json:"salt"`
 	Type string `json:"type"`
-	id   []byte
+	// set-up transaction of a block run: balances the accounts have before the block (abstract value 9 = the account exists)
+	Setup map[string]int64 `json:"setup,omitempty"`
+	id    []byte
 }
 
 func (t *peTx) run() *blockRun { return runOf(t.ID()) }
@@ -227,13 +232,34 @@ func (t *peTx) Equal(o trie.Object) bool {
 	x, ok := o.(*peTx)
 	return ok && bytes.Equal(x.ID(), t.ID())
 }
-func (t *peTx) GetHandler(contract.ContractManager) (transaction.Handler, error) { return t, nil }
+// GetHandler: fate "nohandler" always fails, "retryh" fails from the second call on (the call made for a retry).
+func (t *peTx) GetHandler(contract.ContractManager) (transaction.Handler, error) {
+	if t.Setup != nil {
+		return t, nil
+	}
+	r := t.run()
+	r.mu.Lock()
+	r.handlers[t.Idx-1]++
+	n := r.handlers[t.Idx-1]
+	r.mu.Unlock()
+	switch f := t.prog().Fate; {
+	case f == "nohandler", f == "retryh" && n >= 2:
+		return nil, errors.InvalidStateError.Errorf("harness: GetHandler of tx %d fails (call %d)", t.Idx, n)
+	}
+	return t, nil
+}
 
 // Prepare: the declared lock requests go through the real contract.Context.GetFuture; the resulting real
 // world context is re-based on a wrapper of the real virtual state that gates and reports Commit.
 func (t *peTx) Prepare(ctx contract.Context) (state.WorldContext, error) {
+	if t.Setup != nil {
+		return ctx.GetFuture([]state.LockRequest{{ID: state.WorldIDStr, Lock: state.AccountWriteLock}}), nil
+	}
 	r := t.run()
 	p := t.prog()
+	if p.Fate == "noprep" {
+		return nil, errors.InvalidStateError.Errorf("harness: Prepare of tx %d fails", t.Idx)
+	}
 	var lq []state.LockRequest
 	if p.World == "W" {
 		lq = append(lq, state.LockRequest{ID: state.WorldIDStr, Lock: state.AccountWriteLock})
@@ -246,6 +272,9 @@ func (t *peTx) Prepare(ctx contract.Context) (state.WorldContext, error) {
 			case "R":
 				lq = append(lq, state.LockRequest{ID: string(r.accounts[name].ID()), Lock: state.AccountReadLock})
 			case "W":
+				if p.Twice {
+					lq = append(lq, state.LockRequest{ID: string(r.accounts[name].ID()), Lock: state.AccountReadLock})
+				}
 				lq = append(lq, state.LockRequest{ID: string(r.accounts[name].ID()), Lock: state.AccountWriteLock})
 			}
 		}
@@ -266,6 +295,15 @@ func (t *peTx) Prepare(ctx contract.Context) (state.WorldContext, error) {
 }
 
 func (t *peTx) Execute(ctx contract.Context, wcs state.WorldSnapshot, estimate bool) (txresult.Receipt, error) {
+	if t.Setup != nil {
+		r := t.run()
+		for name, v := range t.Setup {
+			ctx.GetAccountState(r.accounts[name].ID()).SetBalance(big.NewInt(v))
+		}
+		rct := txresult.NewReceipt(ctx.Database(), ctx.Revision(), t.To())
+		rct.SetResult(module.StatusSuccess, big.NewInt(0), big.NewInt(0), nil)
+		return rct, nil
+	}
 	r := t.run()
 	p := t.prog()
 	r.mu.Lock()
@@ -313,6 +351,8 @@ func (t *peTx) Execute(ctx contract.Context, wcs state.WorldSnapshot, estimate b
 		if att == 0 {
 			out = "retry"
 		}
+	case "retryh":
+		out = "retryh"
 	case "retryx":
 		out = "retry"
 		if att >= service.RetryCount {
@@ -325,7 +365,7 @@ func (t *peTx) Execute(ctx contract.Context, wcs state.WorldSnapshot, estimate b
 		retryable = errors.CriticalRerunError
 	}
 	switch out {
-	case "retry", "exhausted":
+	case "retry", "exhausted", "retryh":
 		return nil, retryable.Errorf("harness: retryable failure of tx %d attempt %d", t.Idx, att)
 	case "fatal":
 		if !r.pltFail {
@@ -493,6 +533,15 @@ func newEnv() *env {
 	return e
 }
 
+type setupCB struct{ done chan error }
+
+func (c *setupCB) OnValidate(tr module.Transition, err error) {
+	if err != nil {
+		c.done <- err
+	}
+}
+func (c *setupCB) OnExecute(tr module.Transition, err error) { c.done <- err }
+
 type cb struct {
 	s *sched
 	r *blockRun
@@ -521,6 +570,7 @@ func (c *cb) OnExecute(tr module.Transition, err error) {
 // start creates the transition for the block of r and starts its execution.
 func (e *env) start(r *blockRun, level int, height int64, salt int64) error {
 	r.attempts = make([]int, len(r.progs))
+	r.handlers = make([]int, len(r.progs))
 	r.failNow = map[int]bool{}
 	c := e.nctx.C
 	chain := &chainWrap{Chain: c, level: level}
@@ -529,6 +579,34 @@ func (e *env) start(r *blockRun, level int, height int64, salt int64) error {
 	if err != nil {
 		return err
 	}
+	var parent module.Transition = itr
+	setup := map[string]int64{}
+	for a, v := range r.init {
+		if v != 0 {
+			setup[a] = int64(v)
+		}
+	}
+	if len(setup) > 0 {
+		// the block before: gives the accounts their initial values (executed by the sequential executor, no gates)
+		stx := &peTx{Idx: 0, TS: height*1000 - 1, Salt: salt, Type: "verifpe", Setup: setup}
+		runsByTx.Store(string(stx.ID()), r)
+		sl := transaction.NewTransactionListFromSlice(c.Database(), []module.Transaction{transaction.Wrap(stx)})
+		str := service.NewTransition(itr, nil, sl, common.NewBlockInfo(height, height*1000-1), common.NewConsensusInfo(nil, nil, nil), true)
+		done := make(chan error, 2)
+		if _, err := str.Execute(&setupCB{done}); err != nil {
+			return err
+		}
+		select {
+		case err := <-done:
+			if err != nil {
+				return err
+			}
+		case <-time.After(20 * time.Second):
+			return fmt.Errorf("set-up block did not finish")
+		}
+		parent = str
+		height++
+	}
 	txs := make([]module.Transaction, len(r.progs))
 	for i := range r.progs {
 		tx := &peTx{Idx: i + 1, TS: height*1000 + int64(i), Salt: salt, Type: "verifpe"}
@@ -536,7 +614,7 @@ func (e *env) start(r *blockRun, level int, height int64, salt int64) error {
 		txs[i] = transaction.Wrap(tx)
 	}
 	list := &gatedList{TransactionList: transaction.NewTransactionListFromSlice(c.Database(), txs), r: r}
-	tr := service.NewTransition(itr, nil, list, common.NewBlockInfo(height, height*1000),
+	tr := service.NewTransition(parent, nil, list, common.NewBlockInfo(height, height*1000),
 		common.NewConsensusInfo(nil, nil, nil), true)
 	r.tr = tr
 	cancel, err := tr.Execute(&cb{s: r.s, r: r})
